@@ -269,6 +269,16 @@ def treeLine (st : TState) (e : SExp) : TState × String :=
         else if s.doneOf id != d then ({ st1 with dead := true }, s!"reject C11/C12/C16 mon node {id}: Done() is {d}, model {s.doneOf id}")
         else (st1, "ok")
     | _, _, _ => (st, "bad monobs")
+  | .list [.atom "api", .atom id, .atom phase, .atom name, ret, .atom err, .atom objdone] =>
+    if decBool ret != some true then
+      ({ st with dead := true }, s!"reject C12 {name}() on node {id} ({phase} shutdown) has not returned at the quiescent point: it blocks")
+    else if err == "other" then
+      ({ st with dead := true }, s!"reject C12 {name}() on node {id} ({phase} shutdown) failed with something else than ErrNotRunning")
+    else if objdone == "false" then
+      ({ st with dead := true }, s!"reject C12 {name}() on node {id} racing with shutdown returned an object that is still running (zombie)")
+    else if phase == "after" && err == "nil" && name != "Close" then
+      ({ st with dead := true }, s!"reject C12 {name}() on node {id} succeeded after the root was done")
+    else (st, "ok")
   | .list (.atom "attach-error" :: _) => ({ st with dead := true }, "diff attach failed")
   | _ => (st, "bad line")
 
